@@ -118,10 +118,15 @@ def check_props(prop_id, extra_targets=()):
     ok, log = make([rel + "o"] + list(extra_targets))
     closure = dep_closure(rel)
     obligations, names = count_statements(closure)
-    discharged = 0
-    for f in closure:
-        if (COQ / (f + "o")).exists() and (COQ / (f + "o")).stat().st_mtime >= (COQ / f).stat().st_mtime:
-            discharged += count_statements([f])[0]
+    if ok and vo.exists():
+        # make succeeded: every file in the closure was (re)compiled or found up to date by make
+        discharged = obligations
+    else:
+        discharged = 0
+        for f in closure:
+            if f != rel and (COQ / (f + "o")).exists() and \
+                    (COQ / (f + "o")).stat().st_mtime >= (COQ / f).stat().st_mtime:
+                discharged += count_statements([f])[0]
     # Print Assumptions output is in the make log (coqc stdout) -- keep the relevant lines
     assumptions = []
     lines = log.splitlines()
